@@ -571,9 +571,10 @@ Section Go.
 
   (* with a "oneOf" *)
   Local Notation G1 oneo := (go re native T A cov ty fmt enum cst nv sv ik items mni mxi props req ap None None oneo None ref).
+  Local Notation G2 anyo oneo := (go re native T A cov ty fmt enum cst nv sv ik items mni mxi props req ap None anyo oneo None ref).
 
-  Lemma go_newtype_any oneo ft nn t n dv i :
-    get_det T t = Some (DNewtype n dv i CNone) -> G1 oneo ft nn i = true -> G1 oneo (S ft) nn t = true.
+  Lemma go_newtype_any anyo oneo ft nn t n dv i :
+    get_det T t = Some (DNewtype n dv i CNone) -> G2 anyo oneo ft nn i = true -> G2 anyo oneo (S ft) nn t = true.
   Proof.
     intros Hd Hi. cbn [go]. rewrite Hd. cbn [is_json_value wrapper_of]. rewrite Hi. destruct ref.
     - destruct (mem_pair A u t); reflexivity.
@@ -587,6 +588,18 @@ Section Go.
   Proof.
     intros Hd Hr Hw Hu. cbn [go]. rewrite Hd, Hr, Hw, Hu.
     destruct (vacuous nn ty); [reflexivity|]. destruct (is_json_value d); reflexivity.
+  Qed.
+  Lemma go_swap allo no bs : forall ft nn t,
+    go re native T A cov ty fmt enum cst nv sv ik items mni mxi props req ap allo (Some bs) None no ref ft nn t =
+    go re native T A cov ty fmt enum cst nv sv ik items mni mxi props req ap allo None (Some bs) no ref ft nn t.
+  Proof.
+    induction ft as [|ft IH]; intros nn t; [reflexivity|]. cbn [go].
+    destruct (get_det T t) as [d|]; [|reflexivity].
+    destruct (match ref with Some r => mem_pair A r t | None => false end); [reflexivity|].
+    destruct (match ref with None => vacuous nn ty | Some _ => false end); [reflexivity|].
+    destruct (is_json_value d); [reflexivity|].
+    destruct (wrapper_of d); [apply IH|].
+    destruct ref; [destruct (option_of d); [apply IH|reflexivity]|]. reflexivity.
   Qed.
 End Go.
 
@@ -927,6 +940,25 @@ Proof.
   intro s. apply H.
 Qed.
 
+(* ... and treats a node that carries its union under "anyOf" through the node that carries it under "oneOf" *)
+Lemma schema_ind_u (P : schema -> Prop) :
+  (forall b, P (SBool b)) ->
+  (forall ty fmt enum cst nv sv ik items ai mni mxi uq props req ap mnp mxp allo oneo no ref dflt title,
+     Forall P items -> Forall (fun kv => P (snd kv)) props -> OForall P ap ->
+     OForall (Forall (fun b => P b /\ PropP P b)) oneo ->
+     P (SObj ty fmt enum cst nv sv ik items ai mni mxi uq props req ap mnp mxp allo None oneo no ref dflt title)) ->
+  (forall ty fmt enum cst nv sv ik items ai mni mxi uq props req ap mnp mxp allo bs no ref dflt title,
+     P (SObj ty fmt enum cst nv sv ik items ai mni mxi uq props req ap mnp mxp allo None (Some bs) no ref dflt title) -> P (SObj ty fmt enum cst nv sv ik items ai mni mxi uq props req ap mnp mxp allo (Some bs) None no ref dflt title)) ->
+  (forall ty fmt enum cst nv sv ik items ai mni mxi uq props req ap mnp mxp allo abs obs no ref dflt title, P (SObj ty fmt enum cst nv sv ik items ai mni mxi uq props req ap mnp mxp allo (Some abs) (Some obs) no ref dflt title)) ->
+  forall s, P s.
+Proof.
+  intros HB HS HA HB2. apply schema_ind_p; [exact HB|].
+  intros ty fmt enum cst nv sv ik items ai mni mxi uq props req ap mnp mxp allo anyo oneo no ref dflt title IHi IHp IHa IHo IHy.
+  destruct anyo as [abs|].
+  - destruct oneo as [obs|]; [apply HB2|]. apply HA. apply HS; assumption.
+  - apply HS; assumption.
+Qed.
+
 Section Branches.
   Variable cv : schema -> name -> st -> option (details * st).
 
@@ -1068,12 +1100,22 @@ Section Main.
         injection H as <-. repeat split; reflexivity.
   Qed.
 
+  (* the union a fragment node carries, if any: written with "oneOf" or with "anyOf" *)
+  Definition union_spec (nl : bool) (k : kind) (ty : option (list itype)) (enum : option (list json)) (ref : option ustring)
+             (oneo anyo : option (list schema)) : Prop :=
+    match k with
+    | KOne _ | KOpt =>
+        nl = false /\ ((exists bs, oneo = Some bs /\ anyo = None) \/
+                       (exists bs, oneo = None /\ anyo = Some bs /\ ty = None /\ enum = None /\ ref = None))
+    | _ => oneo = None /\ anyo = None
+    end.
+
   Lemma frag_obj_inv ty fmt enum cst nv sv ik items ai mni mxi uq props req ap mnp mxp allo anyo oneo no ref dflt title :
     frag cls keys (SObj ty fmt enum cst nv sv ik items ai mni mxi uq props req ap mnp mxp allo anyo oneo no ref dflt title) = true ->
     exists nl k,
       classify ty fmt enum cst nv sv ik items ai mni mxi uq props req ap mnp mxp allo anyo oneo no ref dflt title = Some (nl, k)
-      /\ cst = None /\ allo = None /\ anyo = None
-      /\ (match k with KOne _ | KOpt => nl = false /\ exists bs, oneo = Some bs | _ => oneo = None end)
+      /\ cst = None /\ allo = None
+      /\ union_spec nl k ty enum ref oneo anyo
       /\ no = None.
   Proof.
     cbn [frag]. destruct (classify _ _ _ _ _ _ _ _ _ _ _ _ _ _ _ _ _ _ _ _ _ _ _ _) as [[nl k]|] eqn:Hc; [|discriminate].
@@ -1082,16 +1124,19 @@ Section Main.
     - destruct (only_one _ _ _ _ _ _ _ _ _ _ _ _ _ _ _ _ _ _ _ _ _ _ _) eqn:Ho; [|discriminate].
       unfold only_one in Ho. bool_facts. subst.
       destruct (opt_shape bs) as [[|]|]; [| |discriminate].
-      + injection Hc as <- <-. repeat split; try reflexivity. exists bs. reflexivity.
+      + injection Hc as <- <-. repeat split; try reflexivity. left. exists bs. split; reflexivity.
       + destruct (one_kind bs) as [tg|]; [|discriminate]. cbn [option_map] in Hc. injection Hc as <- <-.
-        repeat split; try reflexivity. exists bs. reflexivity.
+        repeat split; try reflexivity. left. exists bs. split; reflexivity.
     - destruct anyo as [abs|].
-      { (* "anyOf": in the model, not (yet) in the theorems' fragment *)
-        exfalso. destruct (only_any _ _ _ _ _ _ _ _ _ _ _ _ _ _ _ _ _ _ _ _ _ _); [|discriminate].
-        unfold any_kind in Hc. destruct (opt_shape abs) as [[|]|]; cbn [option_map] in Hc; try discriminate.
-        - injection Hc as <- <-. cbn [proved_union is_none andb] in Hfr. discriminate Hfr.
-        - destruct (opt_all_map scalar_arm abs); [|discriminate]. destruct (_ && _); [|discriminate].
-          injection Hc as <- <-. cbn [proved_union is_none andb] in Hfr. discriminate Hfr. }
+      { destruct (only_any _ _ _ _ _ _ _ _ _ _ _ _ _ _ _ _ _ _ _ _ _ _) eqn:Ho; [|discriminate].
+        unfold only_any in Ho. bool_facts. subst.
+        destruct (any_kind abs) as [k'|] eqn:Hak; cbn [option_map] in Hc; [|discriminate]. injection Hc as <- <-.
+        assert (Hk' : match k' with KOne _ | KOpt => True | _ => False end).
+        { unfold any_kind in Hak. destruct (opt_shape abs) as [[|]|]; try discriminate.
+          - injection Hak as <-. exact I.
+          - destruct (opt_all_map scalar_arm abs); [|discriminate]. destruct (_ && _); [|discriminate]. injection Hak as <-. exact I. }
+        repeat split; try reflexivity.
+        destruct k'; try contradiction; (split; [reflexivity|]); right; exists abs; repeat split; reflexivity. }
       destruct (no_extras cst ai mnp mxp allo None None no dflt title) eqn:Hne; [|discriminate].
       destruct (no_extras_inv _ _ _ _ _ _ _ _ _ _ Hne) as (-> & -> & _ & _ & ->).
       assert (Hk : match k with KOne _ | KOpt => False | _ => True end).
@@ -1102,7 +1147,32 @@ Section Main.
           apply kind_of_type_inv in Hk. destruct Hk as (_ & _ & _ & _ & _ & _ & _ & Hk).
           destruct k; try exact I; contradiction.
         - destruct (_ && _); [|discriminate]. destruct ref; injection Hc as _ <-; exact I. }
-      repeat split; try reflexivity. destruct k; try reflexivity; contradiction.
+      repeat split; try reflexivity. destruct k; try (split; reflexivity); contradiction.
+  Qed.
+
+  (* at a node without "anyOf" (where the inductions over schemas do their work) *)
+  Lemma frag_obj_inv0 ty fmt enum cst nv sv ik items ai mni mxi uq props req ap mnp mxp allo oneo no ref dflt title :
+    frag cls keys (SObj ty fmt enum cst nv sv ik items ai mni mxi uq props req ap mnp mxp allo None oneo no ref dflt title) = true ->
+    exists nl k,
+      classify ty fmt enum cst nv sv ik items ai mni mxi uq props req ap mnp mxp allo None oneo no ref dflt title = Some (nl, k)
+      /\ cst = None /\ allo = None
+      /\ (match k with KOne _ | KOpt => nl = false /\ exists bs, oneo = Some bs | _ => oneo = None end)
+      /\ no = None.
+  Proof.
+    intro Hf. destruct (frag_obj_inv _ _ _ _ _ _ _ _ _ _ _ _ _ _ _ _ _ _ _ _ _ _ _ _ Hf) as (nl & k & Hcl & Hc & Ha & Hu & Hn).
+    exists nl, k. repeat (split; [assumption|]). split; [|exact Hn]. unfold union_spec in Hu.
+    destruct k; try exact (proj1 Hu);
+      (destruct Hu as [Hnl [(bs & Ho & _)|(bs & _ & Hx & _)]]; [split; [exact Hnl|exists bs; exact Ho]|discriminate Hx]).
+  Qed.
+
+  Lemma classify_union ty fmt enum cst nv sv ik items ai mni mxi uq props req ap mnp mxp allo bs no ref dflt title nl k :
+    classify ty fmt enum cst nv sv ik items ai mni mxi uq props req ap mnp mxp allo None (Some bs) no ref dflt title = Some (nl, k) ->
+    match k with KOne _ | KOpt => True | _ => False end.
+  Proof.
+    unfold classify. destruct (only_one _ _ _ _ _ _ _ _ _ _ _ _ _ _ _ _ _ _ _ _ _ _ _); [|discriminate].
+    destruct (opt_shape bs) as [[|]|]; [| |discriminate].
+    - intro H. injection H as _ <-. exact I.
+    - destruct (one_kind bs); [|discriminate]. cbn [option_map]. intro H. injection H as _ <-. exact I.
   Qed.
 
   Lemma is_one_none s : sch_one_of s = None -> sch_any_of s = None -> is_one s = false.
@@ -1121,7 +1191,7 @@ Section Main.
 
   Definition no_one (s : schema) : Prop :=
     match s with
-    | SObj _ _ _ _ _ _ _ _ _ _ _ _ _ _ _ _ _ _ _ oneo _ _ _ _ => oneo = None
+    | SObj _ _ _ _ _ _ _ _ _ _ _ _ _ _ _ _ _ _ anyo oneo _ _ _ _ => oneo = None /\ anyo = None
     | SBool _ => True
     end.
 
@@ -1140,8 +1210,8 @@ Section Main.
   Proof.
     destruct s as [b|ty fmt enum cst nv sv ik items ai mni mxi uq props req ap mnp mxp allo anyo oneo no ref dflt title];
       [discriminate|].
-    intros Hf Hno Hd HG. apply frag_obj_inv in Hf. destruct Hf as (nl & k & _ & _ & -> & -> & _ & ->).
-    cbn [no_one] in Hno. subst oneo.
+    intros Hf Hno Hd HG. apply frag_obj_inv in Hf. destruct Hf as (nl & k & _ & _ & -> & _ & ->).
+    cbn [no_one] in Hno. destruct Hno as [-> ->].
     cbn [Gs] in *. eapply go_option; eassumption.
   Qed.
 
@@ -1151,7 +1221,7 @@ Section Main.
   Proof.
     destruct s as [b|ty fmt enum cst nv sv ik items ai mni mxi uq props req ap mnp mxp allo anyo oneo no ref dflt title];
       [discriminate|].
-    intros Hf Hd HG. apply frag_obj_inv in Hf. destruct Hf as (nl & k & _ & _ & -> & -> & _ & ->).
+    intros Hf Hd HG. apply frag_obj_inv in Hf. destruct Hf as (nl & k & _ & _ & -> & _ & ->).
     cbn [Gs] in *. eapply go_newtype_any; eassumption.
   Qed.
 
@@ -1360,6 +1430,67 @@ Section Main.
       + apply ustr_eqb_eq in E. subst k'. exfalso. apply Hni.
         apply (in_map fst) in Hn || (apply nth_error_In in Hn; apply (in_map fst) in Hn). exact Hn.
       + apply (IH j); assumption.
+  Qed.
+
+  (* ---------------------------------------------------------------- "anyOf" nodes through "oneOf" nodes *)
+  Lemma any_classify ty fmt enum cst nv sv ik items ai mni mxi uq props req ap mnp mxp allo bs no ref dflt title x :
+    classify ty fmt enum cst nv sv ik items ai mni mxi uq props req ap mnp mxp allo (Some bs) None no ref dflt title = Some x -> classify ty fmt enum cst nv sv ik items ai mni mxi uq props req ap mnp mxp allo None (Some bs) no ref dflt title = Some x.
+  Proof.
+    unfold classify. destruct (only_any _ _ _ _ _ _ _ _ _ _ _ _ _ _ _ _ _ _ _ _ _ _) eqn:Ho; [|discriminate].
+    assert (Ho1 : only_one ty fmt enum cst nv sv ik items ai mni mxi uq props req ap mnp mxp allo None no ref dflt title = true).
+    { unfold only_one. unfold only_any in Ho. bool_facts. subst. reflexivity. }
+    rewrite Ho1. unfold any_kind. destruct (opt_shape bs) as [[|]|]; cbn [option_map]; try discriminate; [exact (fun H => H)|].
+    destruct (opt_all_map scalar_arm bs) as [tys|] eqn:Harms; [|discriminate].
+    destruct (_ && one_untagged bs) eqn:E; [|discriminate]. apply andb_true_iff in E. destruct E as [_ Hu].
+    intro H. injection H as <-.
+    assert (Hx : one_kind bs = Some TagUntagged); [|rewrite Hx; reflexivity].
+    assert (Hnoext : forall b, In b bs -> xnames b = None /\ tobj b = None).
+    { clear - Harms. revert tys Harms. induction bs as [|b0 r IH]; intros tys H b Hb; [destruct Hb|].
+      cbn [opt_all_map] in H. destruct (scalar_arm b0) as [t0|] eqn:E0; [|discriminate].
+      destruct (opt_all_map scalar_arm r) as [rest|]; [|discriminate].
+      destruct Hb as [<-|Hb]; [|exact (IH rest eq_refl b Hb)].
+      unfold scalar_arm in E0. destruct_matches E0; split; try reflexivity; destruct fmt; reflexivity. }
+    unfold one_kind, one_external.
+    destruct bs as [|b0 r]; [discriminate Hu|].
+    destruct (Hnoext b0 (or_introl eq_refl)) as [Hx0 Ht0].
+    cbn [xall_names tobjs]. rewrite Hx0, Ht0. rewrite Hu. reflexivity.
+  Qed.
+
+  Section AnyNode.
+    Variables (ty : option (list itype)) (fmt : option ustring) (enum : option (list json)) (cst : option json)
+              (nv : numv) (sv : strv) (ik : items_kind) (items : list schema) (ai : option schema) (mni mxi : option N)
+              (uq : bool) (props : list (ustring * schema)) (req : list ustring) (ap : option schema) (mnp mxp : option N)
+              (allo : option (list schema)) (bs : list schema) (no : option schema) (ref : option ustring)
+              (dflt : option json) (title : option ustring).
+    Local Notation nodeA := (SObj ty fmt enum cst nv sv ik items ai mni mxi uq props req ap mnp mxp allo (Some bs) None no ref dflt title).
+    Local Notation nodeO := (SObj ty fmt enum cst nv sv ik items ai mni mxi uq props req ap mnp mxp allo None (Some bs) no ref dflt title).
+    Variable x : bool * kind.
+    Hypothesis Hcl : classify ty fmt enum cst nv sv ik items ai mni mxi uq props req ap mnp mxp allo (Some bs) None no ref dflt title = Some x.
+
+    Lemma any_frag : frag cls keys nodeA = frag cls keys nodeO.
+    Proof. cbn [frag]. rewrite Hcl, (any_classify _ _ _ _ _ _ _ _ _ _ _ _ _ _ _ _ _ _ _ _ _ _ _ x Hcl). reflexivity. Qed.
+
+    Lemma any_conv nm s0 : cvf nodeA nm s0 = cvf nodeO nm s0.
+    Proof. cbn [conv]. rewrite Hcl, (any_classify _ _ _ _ _ _ _ _ _ _ _ _ _ _ _ _ _ _ _ _ _ _ _ x Hcl). reflexivity. Qed.
+
+    Lemma any_names nm : names_of cls nodeA nm = names_of cls nodeO nm.
+    Proof. cbn [names_of]. rewrite Hcl, (any_classify _ _ _ _ _ _ _ _ _ _ _ _ _ _ _ _ _ _ _ _ _ _ _ x Hcl). reflexivity. Qed.
+
+    Lemma any_nne : no_nullable_enum nodeA = no_nullable_enum nodeO.
+    Proof. cbn [no_nullable_enum]. rewrite Hcl, (any_classify _ _ _ _ _ _ _ _ _ _ _ _ _ _ _ _ _ _ _ _ _ _ _ x Hcl). reflexivity. Qed.
+  End AnyNode.
+
+  Lemma frag_classify ty fmt enum cst nv sv ik items ai mni mxi uq props req ap mnp mxp allo anyo oneo no ref dflt title :
+    frag cls keys (SObj ty fmt enum cst nv sv ik items ai mni mxi uq props req ap mnp mxp allo anyo oneo no ref dflt title) = true ->
+    exists x, classify ty fmt enum cst nv sv ik items ai mni mxi uq props req ap mnp mxp allo anyo oneo no ref dflt title = Some x.
+  Proof.
+    cbn [frag]. destruct (classify _ _ _ _ _ _ _ _ _ _ _ _ _ _ _ _ _ _ _ _ _ _ _ _) as [x|]; [|discriminate]. intros _. exists x. reflexivity.
+  Qed.
+
+  Lemma both_frag ty fmt enum cst nv sv ik items ai mni mxi uq props req ap mnp mxp allo abs obs no ref dflt title :
+    frag cls keys (SObj ty fmt enum cst nv sv ik items ai mni mxi uq props req ap mnp mxp allo (Some abs) (Some obs) no ref dflt title) = false.
+  Proof.
+    cbn [frag]. unfold classify. unfold only_one. cbn [is_none]. rewrite !andb_false_r. cbn [andb]. reflexivity.
   Qed.
 
   (* ---------------------------------------------------------------- totality *)
@@ -1834,13 +1965,13 @@ Section Main.
 
   Lemma conv_total : forall s, Tot s.
   Proof.
-    apply schema_ind_p.
+    apply schema_ind_u.
     - intros b Hf. discriminate Hf.
-    - intros ty fmt enum cst nv sv ik items ai mni mxi uq props req ap mnp mxp allo anyo oneo no ref dflt title
-             IHitems IHprops IHap IHone _.
+    - intros ty fmt enum cst nv sv ik items ai mni mxi uq props req ap mnp mxp allo oneo no ref dflt title
+             IHitems IHprops IHap IHone.
       intros Hf nm s0 Hnm.
-      destruct (frag_obj_inv _ _ _ _ _ _ _ _ _ _ _ _ _ _ _ _ _ _ _ _ _ _ _ _ Hf)
-        as (nl & k & Hcl & _ & _ & -> & _).
+      destruct (frag_obj_inv0 _ _ _ _ _ _ _ _ _ _ _ _ _ _ _ _ _ _ _ _ _ _ _ Hf)
+        as (nl & k & Hcl & _).
       pose proof Hcl as Hcases. apply classify_cases in Hcases.
       cbn [frag] in Hf. rewrite Hcl in Hf. change (frag_kind k items props req ap oneo = true) in Hf.
       cbn [conv union_of]. rewrite Hcl.
@@ -1856,6 +1987,11 @@ Section Main.
         * destruct (assign te sa). discriminate.
         * exfalso. exact (conv_kind_total items props req ap oneo k (inner_name nm) s0 Hf IHitems IHprops IHap IHone Hshape Hin Hc).
       + exact (conv_kind_total items props req ap oneo k nm s0 Hf IHitems IHprops IHap IHone Hshape Hnm).
+    - intros ty fmt enum cst nv sv ik items ai mni mxi uq props req ap mnp mxp allo bs no ref dflt title HO Hf nm s0 Hnm.
+      destruct (frag_classify _ _ _ _ _ _ _ _ _ _ _ _ _ _ _ _ _ _ _ _ _ _ _ _ Hf) as (x & Hcl).
+      rewrite (any_frag _ _ _ _ _ _ _ _ _ _ _ _ _ _ _ _ _ _ _ _ _ _ _ x Hcl) in Hf. rewrite (any_conv _ _ _ _ _ _ _ _ _ _ _ _ _ _ _ _ _ _ _ _ _ _ _ x Hcl).
+      exact (HO Hf nm s0 Hnm).
+    - intros ty fmt enum cst nv sv ik items ai mni mxi uq props req ap mnp mxp allo abs obs no ref dflt title Hf. rewrite both_frag in Hf. discriminate Hf.
   Qed.
 
   Lemma conv_def_total d sch t s0 :
